@@ -344,23 +344,32 @@ class PreferenceProfile:
         Returns:
             PreferenceProfile: A PreferenceProfile object with condensed ballot list.
         """
-        weight_accumulator = {}
+        weight_accumulator: dict = {}
+        weightless_ballots: dict = {}
 
-        # weightless allows for id of ballots with matching ranking/scores
+        # group on the full (ranking, scores) content; Ballot.__eq__ treats missing scores
+        # as a wildcard, so keying on Ballot objects made the grouping depend on ballot order
         for ballot in self.ballots:
-            weightless_ballot = (
-                Ballot(ranking=ballot.ranking, weight=Fraction(0), scores=ballot.scores)
-                if ballot.scores
-                else Ballot(ranking=ballot.ranking, weight=Fraction(0))
+            key = (
+                ballot.ranking,
+                frozenset(ballot.scores.items()) if ballot.scores else None,
             )
-            if weightless_ballot not in weight_accumulator:
-                weight_accumulator[weightless_ballot] = Fraction(0)
+            if key not in weight_accumulator:
+                weight_accumulator[key] = Fraction(0)
+                weightless_ballots[key] = (
+                    Ballot(
+                        ranking=ballot.ranking, weight=Fraction(0), scores=ballot.scores
+                    )
+                    if ballot.scores
+                    else Ballot(ranking=ballot.ranking, weight=Fraction(0))
+                )
 
-            weight_accumulator[weightless_ballot] += ballot.weight
+            weight_accumulator[key] += ballot.weight
 
         new_ballot_list = [Ballot()] * len(weight_accumulator)
         i = 0
-        for ballot, weight in weight_accumulator.items():
+        for key, weight in weight_accumulator.items():
+            ballot = weightless_ballots[key]
             if ballot.scores:
                 new_ballot_list[i] = Ballot(
                     ranking=ballot.ranking, scores=ballot.scores, weight=weight
